@@ -611,16 +611,16 @@ harnesses! {
     get_lru_n3_mixed [5] => h_access(3, tab_of(6), 2); //@ q=C04,C05,C20 t=C07 to=600
     touch_n3_mixed [5] => h_access(3, tab_of(6), 3); //@ q=C05,C07,C20 t=C04 to=600
     get_n4_mixed [6] => h_access(4, tab_of(6), 0); //@ t=C04,C05 to=900
-    touch_n1 [3] => h_access(1, tab_of(6), 3); //@ q=C05 to=600
+    touch_n1 [3] => h_access(1, tab_of(6), 3); //@ q=C05,C07 to=600
     get_lru_n0 [3] => h_access(0, tab_of(6), 2); //@ q=C05 to=600
-    peek_mru_n1 [3] => h_access(1, tab_of(6), 8); //@ q=C19,C05 to=600
+    peek_mru_n1 [3] => h_access(1, tab_of(6), 8); //@ q=C19,C05,C07 to=600
     peek_lru_n1 [3] => h_access(1, tab_of(6), 7); //@ q=C19,C05 to=600
     peek_n1 [3] => h_access(1, tab_of(6), 4); //@ q=C19 to=600
     peek_entry_n1 [3] => h_access(1, tab_of(6), 5); //@ q=C19 to=600
     contains_n2 [4] => h_access(2, tab_of(6), 6); //@ q=C19 to=600
     peek_mru_n2 [4] => h_access(2, tab_of(6), 8); //@ q=C19 to=600
-    get_n1 [3] => h_access(1, tab_of(6), 0); //@ q=C05,C04 to=600
-    get_lru_n1 [3] => h_access(1, tab_of(6), 2); //@ q=C05 to=600
+    get_n1 [3] => h_access(1, tab_of(6), 0); //@ q=C05,C04,C07 to=600
+    get_lru_n1 [3] => h_access(1, tab_of(6), 2); //@ q=C05,C07 to=600
     peek_n3_mixed [5] => h_access(3, tab_of(6), 4); //@ q=C04,C05,C19,C20 to=600
     peek_entry_n3_collide [5] => h_access(3, tab_of(0), 5); //@ q=C04,C05,C19,C20 to=600
     contains_n3_mixed [5] => h_access(3, tab_of(6), 6); //@ q=C04,C05,C19,C20 to=600
